@@ -15,6 +15,11 @@ The dense tensor before and after is always this module's own index-sum oracle o
   padtt                    pad_tt_rank on TT (pad_boundaries=False) and TR (pad_boundaries=True) cores
   fromcp                   Parafac2Tensor.from_CPTensor with B := Q R generated from the QR stub's outputs
   svdc                     svd_compress_tensor_slices + svd_decompress_parafac2_tensor with slice := U diag(s) Vt generated from the SVD stub's outputs
+                           (.../Psym, /P<n>: symbolic orthonormal U, free Vt; model projections symbolic when they have one row, else from a
+                           catalogue of rational frames; .../Ucat<n>: U and Vt from the catalogue, s symbolic -- these are the configurations in
+                           which counterexamples of a wrong implementation are found and replayed faithfully)
+Obligation names are stable per family: dense_unchanged[/...], unit_or_zero/<mode>/c<r>, weights_nonneg/c<r>, summary_nonneg/m<k>/c<r>,
+dense_is_mode_product, factor_shapes, shape_attr, enlarged_ranks/core<k>, call/no_exception, t<j>/aligned_with_reference, ...
 """
 import itertools
 
@@ -64,15 +69,17 @@ ENCODED = [
     "tensorly.tenalg.svd.svd_flip",
 ]
 BOUNDS = {
-    "quick": "orders 2-3, mode sizes in {1,2} (plus a 3 in one shape per family), R <= 2 (Tucker ranks <= 2), every mode, matrix operands with 1-2 rows and vector operands, "
-    "keep_dim/copy in {False,True}, tuple / wrapper / method entry points; permutation R <= 2; padding 1-2; from_CPTensor second mode >= R; "
-    "compression: slices 2x1, 3x1, 2x2 (threshold), all singular values kept",
-    "thorough": "orders 2-4, mode sizes in {1,2,3}, R <= 3; permutation R <= 3; compression slices up to 3x2",
+    "quick": "orders 2-3, mode sizes in {1,2} (plus a 3 in one shape per family), R <= 2 (Tucker ranks <= 2), every mode (cp_flip_sign on 2x2x2 R=2: target mode 1 only), "
+    "matrix operands with 1-2 rows and vector operands, keep_dim/copy in {False,True}, tuple / wrapper / method entry points; permutation R <= 2 plus one 1x2 R=3 case; "
+    "padding 1-2; from_CPTensor second mode >= R; compression: slices 2x1, 3x1, 1x2, 2x2 (2x2 with a symbolic threshold in (0,1]), max_rank None or n_cols+1, "
+    "all singular values kept; projections of the model fitted to 2-row score matrices from a catalogue of 3 rational frames",
+    "thorough": "orders 2-4, mode sizes in {1,2,3}, R <= 3 (normalisation: order*R <= 9, sign flip: order*R <= 8); permutation R <= 3; compression slices up to 3x2",
 }
 OUTSIDE = [
     "sizes > 3, orders > 4, ranks > 3",
     "compression that discards singular values (C09)",
     "from_CPTensor with second-mode size < rank (no orthonormal J x R projection exists)",
+    "contracting an order-2 Tucker tensor with a vector (order-1 result: TuckerTensor requires at least two factors by design)",
     "cp_permute_factors on tensors with a zero column or a zero reference weight (congruence_coefficient raises by design)",
     "IEEE rounding; ties broken differently by SciPy are covered (every optimal permutation is explored)",
 ]
@@ -144,6 +151,8 @@ def configs(tier):
             if len(shp) * R > (6 if q else 8):
                 continue
             for m in range(len(shp)):
+                if q and len(shp) * R >= 6 and m != 1:
+                    continue  # 3^(R*order) sign patterns per configuration: one target mode of the largest case in the quick tier
                 for pre in ("any", "nzmean"):
                     add(f"core/flip/{shp}/R{R}/m{m}/w1/tuple/{pre}", fam="flip", shape=shp, R=R, tmode=m, w=1, how="tuple", pre=pre, mode="fork")
     for pre in ("any", "nzmean"):
@@ -152,12 +161,14 @@ def configs(tier):
         add(f"core/flip/(2, 2)/R1/m1/w0/tuple/{pre}", fam="flip", shape=(2, 2), R=1, tmode=1, w=0, how="tuple", pre=pre, mode="fork")
         add(f"core/flip/(2, 2)/R2/m0/w1/tuple_sum/{pre}", fam="flip", shape=(2, 2), R=2, tmode=0, w=1, how="tuple", func="sum", pre=pre, mode="fork")
     # ---- cp_permute_factors
-    pm = [((2, 2), 1), ((2, 2), 2), ((2, 1, 2), 2), ((1, 2), 2)] + ([] if q else [((2, 2, 2), 2), ((3, 2), 2), ((2, 2), 3), ((3, 3), 3)])
+    # R = 3 is needed to tell a permutation from its inverse (one small shape already in the quick tier)
+    pm = [((2, 2), 1), ((2, 2), 2), ((2, 1, 2), 2), ((1, 2), 2), ((1, 2), 3)] + ([] if q else [((2, 2, 2), 2), ((3, 2), 2), ((2, 2), 3), ((3, 3), 3)])
     for shp, R in pm:
         for how in ("single", "list"):
-            if how == "list" and shp != (2, 2):
+            if how == "list" and (shp != (2, 2) or R == 3):
                 continue
-            add(f"core/permute/{shp}/R{R}/{how}", fam="permute", shape=shp, R=R, how=how, mode="merge")
+            # the R = 3 run is dominated by Python-side root-atom interning (about 1 min alone, more on a loaded machine)
+            add(f"core/permute/{shp}/R{R}/{how}", fam="permute", shape=shp, R=R, how=how, mode="fork", cost=100 * R * len(shp), timeout_s=(420 if q else 3000) if R == 3 else (170 if q else 1500))
     # ---- mode products
     md_shapes = [(2, 2), (1, 2), (2, 1, 2), (2, 2, 2), (3, 2)] if q else [(2, 2), (1, 2), (3, 2), (2, 1, 2), (2, 2, 2), (2, 3, 2), (3, 3, 3), (2, 2, 2, 2), (2, 1, 3, 2)]
     for shp in md_shapes:
@@ -167,6 +178,8 @@ def configs(tier):
             for m in range(len(shp)):
                 ops = [("mat1", 0), ("mat2", 0), ("vec", 0), ("vec", 1)] + ([] if q else [("mat3", 0)])
                 for op, kd in ops:
+                    if q and op == "mat1" and not (shp in [(2, 2), (2, 1, 2)] and R == 2):
+                        continue
                     for cp_ in (0, 1):
                         for how, w in (("wrapper", 1), ("wrapper", 0), ("tuple", 1), ("tuple", 0), ("method", 1)):
                             small = shp in [(2, 2), (2, 1, 2)] and R == 2
@@ -186,6 +199,8 @@ def configs(tier):
                 for op, kd in [("mat1", 0), ("mat2", 0), ("vec", 0), ("vec", 1)]:
                     if be == "einsum" and op != "vec":
                         continue  # only the contraction goes through tenalg.mode_dot
+                    if op == "vec" and kd == 0 and len(shp) == 2:
+                        continue  # order-1 result: TuckerTensor requires >= 2 factors by design (outside the claim)
                     for cp_ in (0, 1):
                         for how in ("tuple", "wrapper", "method"):
                             if how != "tuple" and not (shp in [(2, 2), (2, 1, 2)] and m == 0):
@@ -220,7 +235,11 @@ def configs(tier):
     if not q:
         sv += [([(3, 2)], 1, "none"), ([(3, 2)], 2, "none"), ([(3, 2), (2, 2)], 2, "thr"), ([(3, 2)], 2, "maxrank")]
     for sl, R, opt in sv:
-        add(f"core/svdc/{sl}/R{R}/{opt}", fam="svdc", slices=sl, R=R, opt=opt, mode="fork", branch_timeout_ms=20000)
+        tall = any(min(n, c) > 1 and (n > c or opt == "thr") for n, c in sl)
+        for cat in (0, 1, 2) if tall else (0,):
+            add(f"core/svdc/{sl}/R{R}/{opt}/P{cat if tall else 'sym'}", fam="svdc", slices=sl, R=R, opt=opt, cat=cat, mode="fork", branch_timeout_ms=8000)
+        for cat in (0, 1):
+            add(f"core/svdc/{sl}/R{R}/{opt}/Ucat{cat}", fam="svdc", slices=sl, R=R, opt=opt, cat=cat, U="cat", mode="fork")
     return out
 
 
@@ -492,13 +511,20 @@ def lsa_stub(cost, maximize=False):
     n = C.shape[0]
     assert C.shape == (n, n)
     perms = list(itertools.permutations(range(n)))
-    tot = {p: sum(C[i, p[i]] for i in range(n)) for p in perms}
+    # the optimality fact is stated on fresh names c_ab for the cost entries; the definitions c_ab == cost[a, b] form the fact group
+    # "lsa_def", which no obligation of this module needs (weaker path assumption = sound, and the path conditions stay linear)
+    cv = {}
+    for a in range(n):
+        for b in range(n):
+            cv[a, b] = sym.CTX.fresh("lsa_c")
+            sym.CTX.add_fact("lsa_def", cv[a, b] == sym.term(C[a, b]))
+    tot = {p: z3.Sum([cv[i, p[i]] for i in range(n)]) for p in perms}
     chosen = None
     if n == 1:
         chosen = perms[0]
     else:
         for p in perms:
-            better = [(sym.term(tot[p]) >= sym.term(tot[q])) if maximize else (sym.term(tot[p]) <= sym.term(tot[q])) for q in perms if q != p]
+            better = [(tot[p] >= tot[q]) if maximize else (tot[p] <= tot[q]) for q in perms if q != p]
             b = z3.Bool(f"lsa_pick!{sym.CTX.nfresh_path}")
             sym.CTX.nfresh_path += 1
             if sym.CTX.branch(z3.And([b] + better)):
@@ -531,7 +557,7 @@ def h_permute(E, cfg):
     shape, R, how = cfg["shape"], cfg["R"], cfg["how"]
     wr, fr = _cp_inputs(E, shape, R, 1, prefix="ref_")
     tensors = []
-    for j in range(2 if how == "list" else 1):
+    for j in range(2 if (how == "list" and R == 1) else 1):  # R >= 2: a one-element list (cost of the root-atom interning grows fast)
         tensors.append(_cp_inputs(E, shape, R, 1, prefix=f"t{j}_"))
     # congruence_coefficient raises on zero columns by design: exclude them (and zero reference weights)
     E.assume([E.Not(E.eq(wr[r], 0)) for r in range(R)])
@@ -543,19 +569,33 @@ def h_permute(E, cfg):
         # cp_permute_factors normalises the list entries: zero weights give zero columns there
         for w_, _ in tensors:
             E.assume([E.Not(E.eq(w_[r], 0)) for r in range(R)])
+    import tensorly.metrics.factors as MF
+
+    del LSA_CALLS[:]
+    real_lsa = MF.linear_sum_assignment
     if E.symbolic:
         from vt import backend
-        import tensorly.metrics.factors as MF
 
-        del LSA_CALLS[:]
         backend.patch(MF, "linear_sum_assignment", lsa_stub)
+    else:
+        # replay: the real SciPy solver runs; its argument and answer are recorded for the same two obligations
+        def recording(cost, *a, **k):
+            r, c = real_lsa(cost, *a, **k)
+            LSA_CALLS.append((np.array(cost, dtype=np.float64), tuple(int(x) for x in c)))
+            return r, c
+
+        MF.linear_sum_assignment = recording
     ref = CP.CPTensor((cp(wr), [cp(f) for f in fr]))
     objs = [CP.CPTensor((cp(w_), [cp(f) for f in fs_])) for w_, fs_ in tensors]
-    ok, res = attempt(E, "call", lambda: CP.cp_permute_factors(ref, objs[0] if how == "single" else list(objs)))
+    try:
+        ok, res = attempt(E, "call", lambda: CP.cp_permute_factors(ref, objs[0] if how == "single" else list(objs)))
+    finally:
+        if not E.symbolic:
+            MF.linear_sum_assignment = real_lsa
     if not ok:
         return
     outs, perms = res
-    if how == "single":
+    if isinstance(outs, CP.CPTensor):  # a single tensor (also for a one-element list) is returned bare
         outs = [outs]
     E.prove("n_results", (len(outs), len(perms)) == (len(tensors), len(tensors)))
     for j, ((w_, fs_), o, p) in enumerate(zip(tensors, outs, perms)):
@@ -572,24 +612,44 @@ def h_permute(E, cfg):
         E.prove_eq(f"t{j}/dense_unchanged", d_cp(w2, fs2), d_cp(w_, fs_))
         # alignment with the reference: component r of the result is paired with reference component r, and this pairing
         # maximises the summed product over modes of |cos(angle)| between the paired columns
+        # cosine = inner product of the unit-normalised columns; the cosine is invariant under rescaling of either column, so it is
+        # evaluated on the reference after this module's own normalisation (weights absorbed in mode 0), and for list input on the
+        # likewise normalised tensor -- this keeps the symbolic terms aligned with the root atoms of the code under test
+        def unit(col):
+            nrm = E.sqrt(sum(abs(x) * abs(x) for x in col))
+            return [x / nrm for x in col]
+
+        def prepared(ws, fs, k, r, normalise):
+            col = column(fs[k], r)
+            if not normalise:
+                return col
+            if k == 0:
+                col = [x * ws[r] for x in col]
+            return unit(col)
+
+        refn = [[unit(prepared(wr, fr, k, a, True)) for a in range(R)] for k in range(len(shape))]
+        tn = [[unit(prepared(w_, fs_, k, b, how == "list")) for b in range(R)] for k in range(len(shape))]
+
         def cong(a, b):
             tot = 1
             for k in range(len(shape)):
-                ca, cb = column(fr[k], a), column(fs_[k], b)
-                tot = tot * (abs(sum(x * y for x, y in zip(ca, cb))) / (E.sqrt(ssq(ca)) * E.sqrt(ssq(cb))))
+                tot = tot * abs(sum(x * y for x, y in zip(refn[k][a], tn[k][b])))
             return tot
 
         M = [[cong(a, b) for b in range(R)] for a in range(R)]
-        if E.symbolic and j < len(LSA_CALLS):
-            # (i) the matrix handed to the assignment solver is minus the congruence matrix ...
+        E.prove(f"t{j}/assignment_solver_called", j < len(LSA_CALLS))
+        if j < len(LSA_CALLS):
+            # (i) the matrix handed to the assignment solver is minus the congruence matrix (so "optimal assignment" means
+            #     "maximal summed congruence with reference component a paired with tensor component chosen[a]") ...
             C, chosen = LSA_CALLS[j]
-            E.prove(f"t{j}/assignment_cost_is_minus_congruence", [E.eq(C[a, b], -M[a][b]) for a in range(R) for b in range(R)])
-            # (ii) ... and the returned order is the assignment the solver returned for it
+            for a in range(R):
+                for b in range(R):
+                    E.prove(f"t{j}/assignment_cost_is_minus_congruence/{a}{b}", E.eq(C[a, b], -M[a][b]))
+            # (ii) ... and the returned component order is the assignment the solver returned for it
             E.prove(f"t{j}/aligned_with_reference", p == list(chosen), detail=f"{p} vs {chosen}")
-        else:
+        if not E.symbolic:
             best = sum(M[a][p[a]] for a in range(R))
-            E.prove(f"t{j}/assignment_cost_is_minus_congruence", True)
-            E.prove(f"t{j}/aligned_with_reference", [E.ge(best, sum(M[a][s[a]] for a in range(R))) for s in itertools.permutations(range(R))])
+            E.prove(f"t{j}/aligned_with_reference_direct", [E.ge(best, sum(M[a][s_[a]] for a in range(R))) for s_ in itertools.permutations(range(R))])
 
 
 def _operand(E, cfg, size):
@@ -626,6 +686,8 @@ def h_cpmd(E, cfg):
     if not ok:
         return
     w2, fs2 = parts
+    if R == 1:  # the validator's convention: a 1-D factor is a single column
+        fs2 = [np.reshape(f, (-1, 1)) if np.ndim(f) == 1 else f for f in fs2]
     good = all(np.ndim(f) == 2 and np.shape(f)[1] == R for f in fs2) and len(fs2) == want.ndim and tuple(np.shape(f)[0] for f in fs2) == want.shape
     E.prove("factor_shapes", good, detail=f"{[np.shape(f) for f in fs2]} for dense shape {want.shape}")
     if hasattr(res, "shape"):
@@ -756,6 +818,26 @@ def h_fromcp_pass(E, cfg):
         E.prove("three_part_input_rejected_without_flag", True)
 
 
+def _fr(rows):
+    from fractions import Fraction as Fr
+
+    M = obj((len(rows), len(rows[0])))
+    for i, r in enumerate(rows):
+        for j, x in enumerate(r):
+            M[i, j] = Fr(x[0], x[1]) if isinstance(x, tuple) else Fr(x)
+    return M
+
+
+# rational matrices with orthonormal columns, keyed by shape
+CATALOGUE = {
+    (1, 1): [_fr([[1]]), _fr([[-1]])],
+    (2, 1): [_fr([[(3, 5)], [(4, 5)]]), _fr([[0], [-1]]), _fr([[(-5, 13)], [(12, 13)]])],
+    (2, 2): [_fr([[(3, 5), (-4, 5)], [(4, 5), (3, 5)]]), _fr([[0, 1], [1, 0]]), _fr([[(5, 13), (12, 13)], [(12, 13), (-5, 13)]])],
+    (3, 1): [_fr([[(1, 3)], [(2, 3)], [(2, 3)]]), _fr([[0], [0], [1]])],
+    (3, 2): [_fr([[(1, 3), (2, 3)], [(2, 3), (1, 3)], [(2, 3), (-2, 3)]]), _fr([[0, 1], [1, 0], [0, 0]])],
+}
+
+
 def h_svdc(E, cfg):
     sl, R, opt = cfg["slices"], cfg["R"], cfg["opt"]
     ncols = sl[0][1]
@@ -776,12 +858,24 @@ def h_svdc(E, cfg):
     for i, (n, c) in enumerate(sl):
         assert c == ncols
         k = min(n, c)
-        U = frame(E, f"U{i}", n, k)
+        if cfg.get("U") == "cat":
+            # left singular vectors from the catalogue of rational frames: no non-linear preconditions, so that counterexamples of a
+            # wrong implementation are found (and replayed) easily; the symbolic-U configurations carry the general claim
+            U = as_input(E, CATALOGUE[(n, k)][(i + cfg.get("cat", 0)) % len(CATALOGUE[(n, k)])])
+        else:
+            U = frame(E, f"U{i}", n, k)
+            E.assume([E.Or([E.Not(E.eq(U[j, a], 0)) for j in range(n)]) for a in range(k)])  # implied by the unit norm of the columns
         s = E.real(f"s{i}", (k,), nn=True)
         E.assume([E.ge(s[a], s[a + 1]) for a in range(k - 1)])
         if thr is not None:
-            E.assume([E.ge(s[a], s[0] * thr) for a in range(k)])  # every singular value is kept
-        Vt = E.real(f"Vt{i}", (k, c))
+            # every singular value is kept (strictly above the threshold, so that the replay's float SVD takes the same decisions)
+            E.assume([E.gt_strict(s[a], s[0] * thr) for a in range(1, k)])
+        if cfg.get("U") == "cat":
+            # right singular vectors from the catalogue as well: (U, s, Vt) is then a genuine SVD of the slice, so that the real LAPACK
+            # SVD of the replay returns the same singular values (faithful replay of threshold decisions)
+            Vt = as_input(E, np.asarray(CATALOGUE[(c, k)][(i + 1 + cfg.get("cat", 0)) % len(CATALOGUE[(c, k)])], dtype=object).T.copy())
+        else:
+            Vt = E.real(f"Vt{i}", (k, c))
         X = as_input(E, matmul(matmul(U, np.diag(np.asarray(s, dtype=object)) if k > 1 else np.asarray(s, dtype=object).reshape(1, 1)), Vt))
         if E.symbolic:
             backend.POLICY.tables["svd"].append(((X,), (U, s, as_input(E, Vt))))
@@ -789,6 +883,21 @@ def h_svdc(E, cfg):
         Us.append(U)
         Ss.append(s)
         Vs.append(Vt)
+    # (all inputs are declared before the first obligation so that every replay file is complete)
+    rows = [(min(n, c) if ((n > ncols) or (thr is not None)) else n) for n, c in sl]
+    A = E.real("A", (I, R))
+    B = E.real("B", (R, R))
+    C = E.real("C", (ncols, R))
+    w = E.real("w", (R,))
+    # projections of the model: symbolic orthonormal frames when they have one row; for taller ones a catalogue of rational frames
+    # (the validator inside Parafac2Tensor must see that loading x projection is orthonormal: with symbolic loadings AND symbolic
+    # projections that is a degree-4 consequence of two sets of quadratic constraints which z3 does not decide in context)
+    Ps = []
+    for i in range(I):
+        if rows[i] == 1:
+            Ps.append(frame(E, f"P{i}", rows[i], R))
+        else:
+            Ps.append(as_input(E, CATALOGUE[(rows[i], R)][(cfg.get("cat", 0) + i) % len(CATALOGUE[(rows[i], R)])]))
     ok, res = attempt(E, "compress/call", lambda: PRE.svd_compress_tensor_slices([cp(X) for X in Xs], **kw))
     if not ok:
         return
@@ -812,18 +921,12 @@ def h_svdc(E, cfg):
         E.prove(f"compress/slice{i}/loading_orthonormal", [E.eq(sum(L_i[j, a] * L_i[j, b] for j in range(n)), 1 if a == b else 0) for a in range(k) for b in range(a, k)])
         rec.append(np.asarray(S_i, dtype=object))
     # a PARAFAC2 model of the scores (any model: the decompression claim is about the model, not about its fit)
-    rows = [r.shape[0] for r in rec]
-    if min(rows) < R:
+    if [r.shape[0] for r in rec] != rows:
         return
-    A = E.real("A", (I, R))
-    B = E.real("B", (R, R))
-    C = E.real("C", (ncols, R))
-    w = E.real("w", (R,))
-    Ps = [frame(E, f"P{i}", rows[i], R) for i in range(I)]
     _, sl0, _ = d_p2(w, A, B, C, Ps)
     # lemma (proved here from the preconditions, then available as a fact): loading x projection has orthonormal columns
     for i in range(I):
-        if loadings[i] is None:
+        if loadings[i] is None or rows[i] > 1:
             continue
         W = matmul(loadings[i], Ps[i])
         lem = [E.eq(sum(W[j, a] * W[j, b] for j in range(W.shape[0])), 1 if a == b else 0) for a in range(R) for b in range(a, R)]
